@@ -12,6 +12,7 @@ the provisional super block).  Files may contain sparse and empty blocks, may ca
 flag-less blocks (fragment blocks) may be written between files.
 -/
 import Sqfs.Proofs.BlockWriter
+import Sqfs.Proofs.BlockWriterSpec
 import Sqfs.Proofs.FragDedup
 import Sqfs.Proofs.ToyCodec
 namespace Sqfs.C08
@@ -74,6 +75,27 @@ theorem bw_share_complete (pre : Bytes) (cs : List Call) (hsz : sizesOk cs) (hwf
   cases hr
   exact hc
 
+/-- **Refinement.** For every checksum function `h` (the checksum of a stored block is `h` of its bytes, as
+`process_block` computes it) and *every* call sequence — no protocol assumption — the block writer returns
+exactly the locations of the checksum-free specification `specRun` (smallest earlier run with equal size words
+and equal bytes; history cut to `max (r + count) file_start`) and produces exactly its file. -/
+theorem bw_refines_spec (h : Bytes → UInt32) (pre : Bytes) (cs : List (Nat × Bytes))
+    (hsz : ∀ c ∈ cs, c.2.length < 2 ^ 24) :
+    ∃ s, run (init pre) (withChk h cs) = .ok (s, (specRun ⟨pre, [], 0⟩ cs).2) ∧
+      s.file = (specRun ⟨pre, [], 0⟩ cs).1.file := by
+  obtain ⟨s, ps, hr, href⟩ := run_refines h cs (init pre) ⟨pre, [], 0⟩ [] (Ref_init h pre) hsz
+  exact ⟨s, hr, href.file⟩
+
+/-- **The checksum is only an accelerator.** Two writers that differ in nothing but the checksum function — the
+real `xxh32`, a 2-bit truncation of it, a constant — hand out the same locations and produce the same bytes. -/
+theorem bw_checksum_irrelevant (h1 h2 : Bytes → UInt32) (pre : Bytes) (cs : List (Nat × Bytes))
+    (hsz : ∀ c ∈ cs, c.2.length < 2 ^ 24) :
+    ∃ s1 s2 locs, run (init pre) (withChk h1 cs) = .ok (s1, locs) ∧ run (init pre) (withChk h2 cs) = .ok (s2, locs) ∧
+      s1.file = s2.file := by
+  obtain ⟨s1, hr1, hf1⟩ := bw_refines_spec h1 pre cs hsz
+  obtain ⟨s2, hr2, hf2⟩ := bw_refines_spec h2 pre cs hsz
+  exact ⟨s1, s2, _, hr1, hr2, by rw [hf1, hf2]⟩
+
 /-! ### the hypotheses are satisfiable, the conclusions are not trivial
 
 `AB`, `AB'`: two different two-byte blocks that get the *same* size word and the same checksum `7`.
@@ -98,6 +120,9 @@ more blocks kept, the third cut). -/
 example : (run (init []) exCalls).toOption.map (fun r => (r.2, r.1.file)) =
     some ([0, 2, 2, 4, 6, 2], [0x41, 0x43, 0x41, 0x42, 0x41, 0x42, 0x41, 0x42]) := by decide
 
+/-- the same run through the specification (no checksums) -/
+example : (specRun ⟨[], [], 0⟩ (exCalls.map (fun c => (c.flags, c.data)))).2 = [0, 2, 2, 4, 6, 2] := by decide
+
 /-- `wf` is needed: a `LAST` without a `FIRST` directly after a `DONT_DEDUPLICATE` file cuts that file's own
 copy away (API misuse the block processor never commits). -/
 example :
@@ -106,6 +131,14 @@ example :
     wf false cs = false ∧
     (run (init []) cs).toOption.map (fun r => (r.2, r.1.file)) = some ([0, 0, 2, 0], [1, 2]) := by decide
 
+
+/-- The byte comparison is what carries the property: with `SQFS_BLOCK_WRITER_HASH_COMPARE_ONLY` (documented
+opt-out, never used by the tools) two different one-byte files with the same checksum are given the same location,
+and the second one's byte is gone. -/
+example :
+    let cs : List Call := [ ⟨7, exFirst ||| exLast, [1]⟩, ⟨7, exFirst ||| exLast, [2]⟩ ]
+    (run (init [] Sqfs.Consts.blockWriterHashCompareOnly) cs).toOption.map (fun r => (r.2, r.1.file)) = some ([0, 0], [1]) ∧
+    (run (init []) cs).toOption.map (fun r => (r.2, r.1.file)) = some ([0, 1], [1, 2]) := by decide
 
 end BlockWriterPart
 
@@ -206,6 +239,14 @@ example : evsOk exEvs := by
 example : ((run (Sqfs.ToyCodec.codec 8) (fun _ => 0) true 8 {} exEvs).toOption.map (·.1)) =
     some [some (.loc 0 0), some (.loc 0 3), some (.loc 0 0), some (.loc 1 0), some (.loc 0 3), none,
           some (.loc 0 0), some .sparse, none, none] := by decide
+
+/-- Likewise for fragments: in the documented "size and hash alone" configuration (`file`/`uncmp` = NULL,
+`byteCompare = false`) the second, different fragment is answered with the first one's location. -/
+example :
+    ((run Sqfs.ToyCodec.ident (fun _ => 0) false 8 {} [.frag [1, 2, 3] 0, .frag [1, 2, 4] 0]).toOption.map (·.1)) =
+      some [some (.loc 0 0), some (.loc 0 0)] ∧
+    ((run Sqfs.ToyCodec.ident (fun _ => 0) true 8 {} [.frag [1, 2, 3] 0, .frag [1, 2, 4] 0]).toOption.map (·.1)) =
+      some [some (.loc 0 0), some (.loc 0 3)] := by decide
 
 end FragmentPart
 
